@@ -1,15 +1,11 @@
 ----------------------------- MODULE MC_Timeout -----------------------------
-(* Model-checking and generation instance of Timeout.tla.                                   *)
-(* GenDepth = 0: pure model checking (hist stays empty).  GenDepth > 0: `hist` records every *)
-(* completed step (one TimeoutFuture::poll = one entry) with the observable state after it;  *)
-(* Emit prints a finished behaviour as one JSON line for harness/src/bin/timeout.rs replay.  *)
-EXTENDS Timeout, Json
-
-CONSTANTS GenDepth
-
-VARIABLE hist
+(* Model-checking instance of Timeout.tla (no history variable): INIT TInit, NEXT TNext, or the fair *)
+(* specifications TFairSpec / ProbeSpec for the liveness properties.                                  *)
+EXTENDS Timeout
 
 NoFaults == {}
+CloseOnly == {"close"}
+ConnectOnly == {"connect"}
 SomeFaults == {"connect", "handshake", "close"}
 DialFaults == {"connect", "handshake"}
 NoT == {}
@@ -25,17 +21,4 @@ Durs01 == {0, 1}
 Durs1 == {1}
 Durs13 == {1, 3}
 
-InitH == TInit /\ hist = <<>>
-NextH == /\ TNext
-         /\ hist' = IF GenDepth > 0 /\ pc' = Idle
-                    THEN Append(hist, [ev |-> tev', obs |-> TObs'])
-                    ELSE hist
-SpecH == InitH /\ [][NextH]_<<allvars, hist>>
-FairSpecH == SpecH /\ TFairness
-ProbeSpecH == SpecH /\ ProbeFairness
-
-Beh == [cfg |-> [cap |-> cfg.cap, maxIdle |-> cfg.maxIdle, idleTimeout |-> cfg.it, dur |-> dur, probe |-> Probe], steps |-> hist]
-Emit == (pc = Idle /\ (Len(hist) = GenDepth \/ (Len(hist) > 0 /\ Len(hist) < GenDepth /\ ~ENABLED TNext))) => PrintT(<<"REPLAY", ToJson(Beh)>>)
-StopAtDepth == Len(hist) <= GenDepth
-ViewH == <<TView, hist>>
 =============================================================================
